@@ -23,6 +23,25 @@ from odml.section import BaseSection    # noqa: E402
 from odml.property import BaseProperty  # noqa: E402
 
 
+NATIVE_HEAP = {
+    'field': lambda o, name: getattr(o, name, None),
+    'llen': lambda l: len(l),
+    'item': lambda l, j: list.__getitem__(l, j),
+    'isSec': lambda o: isinstance(o, BaseSection),
+    'isProp': lambda o: isinstance(o, BaseProperty),
+    'isDoc': lambda o: isinstance(o, odml.doc.BaseDocument),
+    'isSL': lambda o: isinstance(o, SmartList),
+    'canon_uuid': lambda s: isinstance(s, str) and _is_canon(s),
+}
+
+
+def _is_canon(s):
+    try:
+        return str(uuid.UUID(s)) == s
+    except Exception:       # noqa
+        return False
+
+
 def main():
     job = json.load(sys.stdin)
     model = job['model']
@@ -43,7 +62,7 @@ def main():
             continue
         if o.get('cls') in ('BaseDocument', 'BaseSection', 'BaseProperty'):
             idv = (o.get('fields', {}).get('_id') or {}).get('str')
-            if idv is not None and idv not in strmap:
+            if idv is not None and len(idv) == 36 and idv not in strmap:
                 strmap[idv] = str(uuid.uuid4())
     # create objects
     for r, o in sorted(objs.items()):
@@ -91,6 +110,18 @@ def main():
         idv = val(f.get('_id'))
         if isinstance(idv, str):
             obj._id = idv
+        # every other plain-valued field of the model (type, cardinalities, ...)
+        for fld, fv_ in f.items():
+            if fld in ('_name', '_id', '_parent', '_sections', '_props', '_content_type', '_values'):
+                continue
+            if fv_ is None or 'opaque' in fv_ or 'ref' in fv_ or 'cls' in fv_:
+                continue
+            if fld in obj.__dict__ or hasattr(type(obj), fld):
+                try:
+                    obj.__dict__[fld] = val(fv_)
+                    script.append('o%d.__dict__[%r] = %r' % (r, fld, val(fv_)))
+                except Exception:      # noqa
+                    pass
         script.append('o%d._name, o%d._id = %r, %r' % (r, r, getattr(obj, '_name', None), obj._id))
         for fld in ('_sections', '_props'):
             lref = (f.get(fld) or {}).get('ref')
@@ -153,6 +184,39 @@ def main():
                 changed.append(h.diff(before[id(root)], h.snap(root)))
     ob = job.get('obligation', '')
     violated = []
+    # native evaluation of the contract's ensures clauses (heap spec builtins have native twins)
+    try:
+        import importlib
+        from pyvc import dsl
+        for m in job.get('contract_modules', []):
+            importlib.import_module(m)
+        c = dsl.REGISTRY.get(job['fid'])
+        if c is not None and kind_ == 'ret' and c.ensures:
+            result = res
+            if hasattr(res, '__next__'):
+                with h.quiet():
+                    result = tuple(res)
+                observed = 'yielded %r' % ([(type(e).__name__, getattr(e, 'rank', None), getattr(e, 'msg', None)) for e in result],)
+            env = dict(zip(params, args))
+            env['result'] = result
+            g = dict(NATIVE_HEAP)
+            for m in job.get('contract_modules', []):
+                g.update({k: v for k, v in sys.modules[m].__dict__.items() if not k.startswith('__')})
+            g.update(dsl.NATIVE_ENV)
+            g.update(NATIVE_HEAP)
+            for k, src in enumerate(c.ensures):
+                if 'old(' in src:
+                    continue
+                try:
+                    g2 = dict(g)
+                    g2.update(env)      # comprehensions inside eval only see globals
+                    ok = bool(eval(compile(src, '<contract>', 'eval'), g2))
+                except Exception as exc:      # noqa
+                    continue
+                if not ok:
+                    violated.append('ensures[%d] false natively: %s' % (k, src))
+    except Exception as exc:      # noqa
+        out['native_ensures_error'] = str(exc)
     if problems and not pre_problems:
         violated.append('Inv broken after the call: %s' % problems[:3])
     if changed:
